@@ -14,19 +14,19 @@ func init() {
 	register(&Rule{ID: "C14.R2", Min: 1,
 		Text: "special names are alternatives: in the parser a second special-name prefix is only tried on the edge where the first one was not consumed",
 		Run:  ruleSpecialNamesExclusive})
-	register(&Rule{ID: "C14.R3", Min: 3,
+	register(&Rule{ID: "C14.R3", Min: 1,
 		Text: "payload and exponent are validated: each flows into a strconv.Parse* whose error edge returns an error; the exponent parse is base 10, 32 bit",
 		Run:  ruleParseValidated})
-	register(&Rule{ID: "C14.R4", Min: 8,
+	register(&Rule{ID: "C14.R4", Min: 6,
 		Text: "one parser: NewFromString, SetString (both receivers), UnmarshalText, Scan, SetFloat64 and the package constants all reach Decimal.setString, which is the only Decimal-level caller of BigInt.SetString",
 		Run:  ruleOneParser})
-	register(&Rule{ID: "C14.R6", Min: 3,
+	register(&Rule{ID: "C14.R6", Min: 1,
 		Text: "notation switch: Append chooses plain notation exactly under d.Exponent <= 0 ∧ adj >= -6, with the zero special case under BitLen()==0 ∧ -2000 <= Exponent < 0",
 		Run:  ruleNotationSwitch})
 	register(&Rule{ID: "C15.R2", Min: 1,
 		Text: "sign flip on every magnitude comparison: on every path of Decimal.Cmp whose result comes from a BigInt.Cmp, the result is negated iff the operands are negative; the rescale branches multiply the operand with the larger exponent",
 		Run:  ruleCmpSignFlip})
-	register(&Rule{ID: "C15.R3", Min: 2,
+	register(&Rule{ID: "C15.R3", Min: 3,
 		Text: "CmpTotal's exponent tie-break is flipped for negative values; Context.Cmp has the NaN prologue; Cmp/CmpTotal write nothing",
 		Run:  ruleCmpTotal})
 }
